@@ -26,7 +26,7 @@ pub struct PropertyRun {
 }
 
 fn replay_dir() -> String {
-    format!("{}/replays", VERIF_DIR)
+    std::env::var("VERIF_REPLAY_DIR").unwrap_or_else(|_| format!("{}/replays", VERIF_DIR))
 }
 
 impl PropertyRun {
@@ -107,7 +107,8 @@ impl PropertyRun {
             seed: self.seed,
             runs,
             workers: self.workers,
-            max_wall_s,
+            // The determinism self-test compares whole batches, so no batch may be cut short by the wall clock.
+            max_wall_s: if std::env::var("VERIF_SELFTEST").is_ok() { 0 } else { max_wall_s },
         };
         let res = runner::run_batch(&cfg, case, &open);
         println!(
@@ -122,6 +123,9 @@ impl PropertyRun {
             res.inconclusive,
             res.faults
         );
+        if std::env::var("VERIF_FINGERPRINT").is_ok() {
+            println!("fingerprint {} {} runs={} {:016x}", self.property, check, res.evaluations, res.fingerprint);
+        }
         for (sig, n) in &res.tainted {
             println!("note: {} runs of {} first hit known finding {}", n, check, sig);
             if !self.known_hit.contains(sig) {
@@ -274,7 +278,7 @@ impl PropertyRun {
             "wall_s": wall,
             "violations": self.new_violations,
         });
-        let dir = format!("{}/evidence", VERIF_DIR);
+        let dir = std::env::var("VERIF_EVIDENCE_DIR").unwrap_or_else(|_| format!("{}/evidence", VERIF_DIR));
         let _ = std::fs::create_dir_all(&dir);
         let path = format!("{}/{}.json", dir, self.property);
         // A check that runs under two build profiles: the second run folds the first run's
